@@ -205,3 +205,34 @@ def cached_walk_rejoin_example():
     g['der'] = sorted([[2, 6], [3, 5], [5, 6], [3, 7], [7, 6], [4, 7]])
     g['feat'] = ['cached_walk_rejoin']
     return g
+
+
+def cycle_cross_edge_example():
+    """c1@1 {A, D, E}; A -> Y, A -> X, Y -> K, X <-> Z, Z -> Y, D -> X, E -> M; c2@K {U, V}: a derivation cycle with an edge
+    back to an earlier-walked node, shared by two options."""
+    g = empty(11)
+    g['ch'] = [{'origin': 1, 'opts': [2, 3, 4]}, {'origin': 7, 'opts': [10, 11]}]
+    g['der'] = sorted([[2, 5], [2, 6], [5, 7], [6, 8], [8, 6], [8, 5], [3, 6], [4, 9]])
+    g['feat'] = ['cycle_cross_edge']
+    return g
+
+
+def with_floating_roots(g, variant=0):
+    """The description plus never-derived, non-start root nodes (docs/theory.md: such nodes and what only they derive are
+    not part of the design space): two roots J1, J2 that BOTH derive a node X with a choice below it, and one node
+    each of their own.  variant 1: a single root."""
+    import json
+    h = json.loads(json.dumps(g))
+    n = h['n']
+    from harness.gd import node
+    names = ['J1', 'J2', 'X', 'W', 'P', 'Q', 'Y1', 'Y2']
+    ids = {nm: n+i+1 for i, nm in enumerate(names)}
+    h['n'] = n + len(names)
+    h['nodes'] = h['nodes'] + [node() for _ in names]
+    der = [[ids['J1'], ids['X']], [ids['X'], ids['W']], [ids['J1'], ids['Y1']]]
+    if variant == 0:
+        der += [[ids['J2'], ids['X']], [ids['J2'], ids['Y2']]]
+    h['der'] = sorted(h['der'] + der)
+    h['ch'] = h['ch'] + [{'origin': ids['W'], 'opts': [ids['P'], ids['Q']]}]
+    h['feat'] = list(h.get('feat', [])) + ['floating_roots']
+    return h
